@@ -708,6 +708,15 @@ def _fingerprint(f):
             names.add("@" + n.attr)
         elif isinstance(n, ast.Constant) and isinstance(n.value, str) and 3 <= len(n.value) <= 60:
             names.add("'" + n.value)
+        elif isinstance(n, ast.Constant) and isinstance(n.value, int) and not isinstance(n.value, bool) and abs(n.value) > 1:
+            names.add("#%d" % n.value)  # numeric constants other than 0 / 1 / -1 (bit masks, widths, bounds)
+        elif isinstance(n, (ast.BinOp, ast.UnaryOp, ast.BoolOp)):
+            names.add("op:" + type(n.op).__name__)
+        elif isinstance(n, ast.Compare):
+            for o in n.ops:
+                names.add("op:" + type(o).__name__)
+        elif isinstance(n, (ast.For, ast.While, ast.If, ast.Try, ast.With, ast.Return, ast.Raise, ast.Subscript, ast.Slice, ast.ListComp, ast.GeneratorExp, ast.DictComp, ast.Tuple)):
+            names.add("k:" + type(n).__name__)  # the kinds of construct the body is made of (arithmetic-only helpers have nothing else to go by)
     return sorted(names)
 
 
